@@ -1285,8 +1285,130 @@ theorem stepY_inv (v : VId) (ir : Nat → Bool) (adm : Job → Path → Prop)
       rcases effSh_queue_mem y.st.sh j rg x q hq' with h | h
       · exact hi.q2 q h
       · rw [h, hp]; simp
-  | gate n ok h0 hn hrun => sorry
-  | crash => sorry
-  | arrive j p hfresh hadm' => sorry
+  | gate n ok h0 hn hrun =>
+    have hlen : s.pending.length = y.st.sh.queue.length := by rw [hi.pend]; simp
+    have hcond : ¬ (n = 0 ∨ n > s.pending.length) := by omega
+    have hprocs : ∀ (sh' : Shared) (s' : Guard.S), s'.held = s.held → s'.missed = s.missed → sh'.held = y.st.sh.held →
+        (∀ t, y.st.sh.store.any (fun l => l.txid = some t) = true → sh'.store.any (fun l => l.txid = some t) = true) →
+        (∀ q ∈ sh'.queue, q ∈ y.st.sh.queue) →
+        ∀ p ∈ y.st.procs, p.alive = true → ∃ ph, grun v p.job.ep (ginit v p.job.ep) p.done = some ph ∧
+          gacc v p.job.ep ph p.todo = true ∧ PInv v ir sh' s' p.job p.regs ph ∧
+          (window ph.hold = true → (none : Option Nat) = some p.job.a) := by
+      intro sh' s' e1 e2 e3 e4 e5 p hp hal
+      obtain ⟨ph, c1, c2, c3, c4⟩ := hi.procs p hp hal
+      refine ⟨ph, c1, c2, ?_, fun hw => by have := c4 hw; rw [hrun] at this; cases this⟩
+      exact pinv_congr v ir y.st.sh sh' s s' p.job p.regs p.regs ph c3 (fun k => by rw [e1]) (fun k h => by rw [e2]; exact h)
+        (fun k => by rw [e3]) e4 (fun q hq _ => e5 q hq) rfl rfl (.inl rfl)
+    have hg2 : ∀ k b, (k, b) ∈ s.held → (v.K, k, b) ∈ y.st.sh.held ∨ (none : Option Nat) = some b := by
+      intro k b hm
+      rcases hi.g2 k b hm with h | h
+      · exact .inl h
+      · rw [hrun] at h; cases h
+    cases ok with
+    | false =>
+      refine ⟨s, ?_, ?_⟩
+      · apply runOn_single
+        simp [Guard.stepOf, view_gate, Guard.step, hcond]
+      · simp only [Bool.false_eq_true, if_false]
+        exact ⟨hi.dur, hi.pend, hi.nodup, hi.sinv, hprocs y.st.sh s rfl rfl rfl (fun _ h => h) (fun _ h => h), hi.g1, hg2,
+          hi.g3, hi.q2⟩
+    | true =>
+      refine ⟨{ s with durable := s.durable ++ s.pending.take n, pending := s.pending.drop n }, ?_, ?_⟩
+      · apply runOn_single
+        simp [Guard.stepOf, view_gate, Guard.step, hcond]
+      · simp only [if_true]
+        have hany : ∀ t, y.st.sh.store.any (fun l => l.txid = some t) = true →
+            (persist y.st.sh n).store.any (fun l => l.txid = some t) = true := by
+          intro t h
+          simp only [persist, List.any_append, h, Bool.true_or]
+        refine ⟨?_, ?_, hi.nodup, ?_, hprocs (persist y.st.sh n) _ rfl rfl rfl hany (fun q hq => List.mem_of_mem_drop hq),
+          hi.g1, hg2, hi.g3, fun q hq => hi.q2 q (List.mem_of_mem_drop hq)⟩
+        · have := hi.dur
+          simp only [persist, List.map_append, this, hi.pend, List.map_take, List.map_map]
+          rfl
+        · simp [persist, hi.pend, List.map_drop]
+        · have hS := hi.sinv
+          cases v
+          · trivial
+          · trivial
+          · intro l hl t ht
+            apply hany
+            refine hS l ?_ t ht
+            simp only [persist, List.mem_append, List.mem_map] at hl ⊢
+            rcases hl with (hl | ⟨q, hq, rfl⟩) | ⟨q, hq, rfl⟩
+            · exact .inl hl
+            · exact .inr ⟨q, List.mem_of_mem_take hq, rfl⟩
+            · exact .inr ⟨q, List.mem_of_mem_drop hq, rfl⟩
+  | crash =>
+    refine ⟨{ s with held := [], missed := [], pending := [] }, ?_, ?_⟩
+    · apply runOn_single
+      simp [Guard.stepOf, view_crash, Guard.step]
+    · refine ⟨hi.dur, by simp [restart], ?_, ?_, ?_, ?_, ?_, ?_, ?_⟩
+      · have := hi.nodup
+        simpa [List.map_map, Function.comp_def] using this
+      · have hS := hi.sinv
+        cases v
+        · trivial
+        · trivial
+        · intro l hl t ht
+          simp only [restart, List.map_nil, List.not_mem_nil, or_false] at hl
+          exact hS l (.inl hl) t ht
+      · intro q hq hal
+        simp only [List.mem_map] at hq
+        obtain ⟨q0, _, rfl⟩ := hq
+        simp at hal
+      · intro k b hm; simp [restart] at hm
+      · intro k b hm; cases hm
+      · intro k b hm; cases hm
+      · intro q hq; simp [restart] at hq
+  | arrive j p hfresh hadm' =>
+    obtain ⟨ha1, ha2⟩ := hadm j p hadm'
+    have hfr : j.a ∉ y.st.procs.map (·.job.a) := by
+      intro h
+      obtain ⟨q, hq, hqa⟩ := List.mem_map.mp h
+      exact hfresh q hq hqa
+    refine ⟨s, rfl, ⟨hi.dur, hi.pend, ?_, hi.sinv, ?_, hi.g1, hi.g2, ?_, ?_⟩⟩
+    · simp only [List.map_append, List.map_cons, List.map_nil]
+      refine List.nodup_append.2 ⟨hi.nodup, by simp, ?_⟩
+      intro a ha b hb
+      simp only [List.mem_singleton] at hb
+      subst hb
+      exact fun h => hfr (h ▸ ha)
+    · intro q hq hal
+      simp only [List.mem_append, List.mem_singleton] at hq
+      rcases hq with hq | rfl
+      · exact hi.procs q hq hal
+      · refine ⟨ginit v j.ep, rfl, ha1, ?_, by simp [ginit, window]⟩
+        exact ginit_pinv v ir y.st.sh s j ha2 (fun k h => hfr (hi.g3 k _ h)) (fun k h => hfr (hi.g3 k _ (hi.g1 k _ h)))
+          (fun q hq hqa => hfr (hqa ▸ hi.q2 q hq))
+    · intro k b hm
+      simp only [List.map_append, List.mem_append]
+      exact .inl (hi.g3 k b hm)
+    · intro q hq
+      simp only [List.map_append, List.mem_append]
+      exact .inl (hi.q2 q hq)
+
+theorem init_inv (v : VId) (ir : Nat → Bool) (store : List LogE) (hst : SInv v (restart store)) :
+    GInv v ir ⟨init store, none⟩ (Guard.init (store.map (fun l => ⟨v.keyOf l, l.id, 0⟩))) := by
+  refine ⟨?_, rfl, by simp [init], hst, ?_, ?_, ?_, ?_, ?_⟩
+  · simp [Guard.init, init, restart, List.map_map, Function.comp_def]
+  · intro p hp; simp [init] at hp
+  · intro k b hm; simp [init, restart] at hm
+  · intro k b hm; simp [Guard.init] at hm
+  · intro k b hm; simp [Guard.init] at hm
+  · intro q hq; simp [init, restart] at hq
+
+/-- **`SkelSys` under the yield-point discipline refines `Guard`** (view `v`): every trace of the system that
+interprets admitted control paths is accepted -/
+theorem runY_refines (v : VId) (ir : Nat → Bool) (adm : Job → Path → Prop)
+    (hadm : ∀ j p, adm j p → gacc v j.ep (ginit v j.ep) p = true ∧ JobOkV ir v j)
+    (y0 y : YState) (tr : List Ev) (h : RunY adm y0 tr y) (s0 : Guard.S) (hi : GInv v ir y0 s0) :
+    ∃ s, runOn (gm v ir) s0 tr = .ok s ∧ GInv v ir y s := by
+  induction h with
+  | nil => exact ⟨s0, rfl, hi⟩
+  | cons y1 y2 evs tr _ hstep ih =>
+    obtain ⟨s1, h1, hi1⟩ := ih
+    obtain ⟨s2, h2, hi2⟩ := stepY_inv v ir adm hadm y1 y2 evs hstep s1 hi1
+    exact ⟨s2, by rw [runOn_append, h1]; exact h2, hi2⟩
 
 end Engine.Skel.GuardRef
